@@ -302,6 +302,16 @@ func histRun(c *Ctx, line string, f []string) string {
 		if res != "ok" && res != "unsupported" && before != zero {
 			c.NT(1) // a failing call on a receiver that holds an earlier decoded value
 		}
+		// a successful call yields exactly the decoded value, whatever the receiver held before: the same op on a
+		// fresh variable must leave the same value
+		if res == "ok" && before != zero {
+			w := &cxRecv{typ: typ}
+			wb, _ := cxGuarded(op.data)
+			if werr, _, wp := w.call(op, wb, i); werr == nil && !wp && w.render() != after {
+				c.Fail("C17."+typ+".overwrite", line, "op %d (%s) succeeded on a receiver holding %q and left %q; on a zero receiver the same input gives %q", i, op.kind, before, after, w.render())
+				bad = "RECEIVER-NOT-REPLACED"
+			}
+		}
 		msg := errText(err)
 		cxScribble(full)
 		if again := v.render(); again != after {
